@@ -343,6 +343,8 @@ K_D25 = impl('Known_D25 (eager caller, early-returning handler that has answered
 M_S1CAP3 = impl('S1cap3 (the same with 3 client messages: the pipeline absorbs the resets)', streams=['s1'], maxc=3, maxs=1, cap=1)
 M_S1CAPC = impl('S1capc (transport capacity 1, two messages, the caller may cancel)', streams=['s1'], maxc=2, maxs=1, cap=1, cancel=True)
 
+M_S1M2CAP = impl('S1m2cap (transport capacity 1, two messages each way, the caller may cancel; the 30 s reset-write timeout fires at quiescence)', streams=['s1'], maxc=2, maxs=2, cap=1, cancel=True)
+M_S1U1CAP = impl('S1U1cap (one stream + one unary call, capacity 1, callers may give up)', unaries=['u1'], streams=['s1'], workers=1, maxc=1, maxs=1, cap=1, cancel=True, tiers=['thorough'], tlc_workers=14)
 M_ADVC3 = impl('AdvC3 (adversarial client: any 3 envelopes on one id, then it closes)', maxc=0, maxs=1, advc=3)
 M_ADVC4 = impl('AdvC4 (adversarial client: any 4 envelopes)', maxc=0, maxs=1, advc=4, tiers=['thorough'], tlc_workers=14)
 B_ADVC_D7S = impl('Bug_D7s under an adversarial client', maxc=0, maxs=0, advc=4, without='D7s', expect='Deadlock reached', tlc_workers=4)
@@ -352,7 +354,7 @@ B_ADVS_D7C = impl('Bug_D7c under an adversarial server', unaries=['u1'], maxc=0,
 
 for _p, _ms in {'C12': [M_ADVC3, B_ADVC_D7S, M_ADVC4], 'C13': [M_ADVS3U, B_ADVS_D7C, M_ADVS3S], 'C01': [M_U2, M_U2C], 'C02': [M_S1, B_D1, M_S1M2], 'C03': [M_S1, B_D4], 'C05': [M_U2, M_S1], 'C06': [M_S1, B_D4],
                 'C07': [M_S1, B_D7C, B_D24, M_HW0, K_D23, M_S1M2], 'C09': [M_U2RF, B_D5, M_S1RF], 'C10': [M_S1STOP, M_U2STOP, B_D6],
-                'C11': [M_S1, B_D7S, B_D7C, K_D25, M_S1CAP3, M_S1CAPC, M_S1U1], 'C14': [M_S1, M_U2, M_U2C, M_S1SF, B_D22, M_S1SF2]}.items():
+                'C11': [M_S1, B_D7S, B_D7C, K_D25, M_S1CAP3, M_S1CAPC, M_S1M2CAP, M_S1U1, M_S1U1CAP], 'C14': [M_S1, M_U2, M_U2C, M_S1SF, B_D22, M_S1SF2]}.items():
     PROPS[_p]['models'] = list(PROPS[_p].get('models', [])) + _ms
 
 
